@@ -71,6 +71,11 @@ def instances(tier, seed):
     for n in ((2, 3, 4) if tier == 'quick' else (2, 3, 4, 5, 6)):
         out.append({'kind': 'wire', 'n': n, 'flav': 'sync'})
         out.append({'kind': 'wire', 'n': n, 'flav': 'async'})
+    # request + reply in one call (Connection::command / command_list, both flavours), the reply arriving in two reads, one
+    # read (a symbolic one) possibly failing once with ErrorKind::Interrupted
+    for flav in ('sync', 'async'):
+        for n in ((1, 2, 3) if tier == 'quick' else (1, 2, 3, 4)):
+            out.append({'kind': 'shorthand', 'n': n, 'flav': flav})
     for n in range(1, 9):
         out.append({'kind': 'tuple', 'n': n})
     for n in range(0, 5 if tier == 'quick' else 8):
@@ -98,6 +103,8 @@ def run_instance(payload):
         run_send(P, res, payload)
     elif payload['kind'] == 'wire':
         run_wire(P, res, payload)
+    elif payload['kind'] == 'shorthand':
+        run_shorthand(P, res, payload)
     else:
         run_typed(P, res, payload)
     res.wall_s = time.time() - t0
@@ -221,6 +228,77 @@ def run_send(P, res, payload):
             m = ctx.model()
             res.samples.append({'sent': flav, 'max_write': mw, 'wire': model_bytes(m, out).decode('latin1')})
         res.take_stats(ctx.stats); ctx.stats.__init__()
+
+def list_reply(n):
+    """(reply bytes, expected frames) of the simulated server for a list of n commands (n = 1: a single command)"""
+    if n == 1:
+        return b'id: 0\nOK\n', [[(b'id', b'0')]]
+    body = b''; want = []
+    for k in range(n):
+        fs = [] if (n >= 3 and k == n // 2) else ([(b'id', b'%d' % k)] + ([(b'extra', b'%d' % k)] if k else []))
+        want.append(fs)
+        body += b''.join(a + b': ' + b + b'\n' for a, b in fs) + b'list_OK\n'
+    return body + b'OK\n', want
+
+def run_shorthand(P, res, payload):
+    """Connection::command / command_list (send + receive in one call): the request is written once and completely, the result is
+    the server's reply to it - or an error; never a response with other frames"""
+    from models_io import Transport, drive
+    from props.conn_common import T, set_cap
+    n = payload['n']; flav = payload['flav']
+    conn_ty = 'Connection' if flav == 'sync' else 'AsyncConnection'
+    body, want = list_reply(n)
+    cut = body.index(b'\n') + 1 + (8 if n > 1 else 0)         # the second read starts after the first line (+ list_OK)
+    def harness(I):
+        set_cap(I, 8 if flav == 'sync' else 4096)
+        t = Transport(list(b'OK MPD 0.23.5\n' + body), cuts=[14, 14 + min(cut, len(body) - 1)], eof=True)
+        intr = I.ctx.choose(4, 'interrupt')
+        I._intr = intr
+        r = I.call_repo('mpd_protocol::connection::%s::<%s>::connect' % (conn_ty, T), [t])
+        if flav == 'async':
+            r = drive(I, r)
+        conn = ValLoc(r.fields[0])
+        if intr:
+            t.interrupt_at = t.read_calls + intr - 1
+            I._intr = t.interrupt_at + 1           # recorded as 1 + the index of the failing read call, counted from the start of the connection
+        cmds = [I.call_repo('mpd_protocol::Command::new', [str_ref(b'c' + bytes([97 + k]))]) for k in range(n)]
+        if n == 1:
+            x = I.call_repo('mpd_protocol::connection::%s::<%s>::command' % (conn_ty, T), [Ref(conn), cmds[0]])
+        else:
+            lst = I.call_repo('mpd_protocol::CommandList::new', [cmds[0]])
+            for c in cmds[1:]:
+                lst = I.call_repo('mpd_protocol::CommandList::command', [lst, c])
+            x = I.call_repo('mpd_protocol::connection::%s::<%s>::command_list' % (conn_ty, T), [Ref(conn), lst])
+        if flav == 'async':
+            x = drive(I, x)
+        I._hit = bool(intr) and t.read_calls > t.interrupt_at
+        return x, list(t.out)
+    for pr in explore(P, harness):
+        res.paths += 1
+        I = pr.interp
+        rec = {'kind': 'shorthand', 'n': n, 'flav': flav, 'interrupt': getattr(I, '_intr', 0)}
+        if pr.kind == 'panic':
+            res.violations.append({'what': 'command/command_list panics: ' + pr.error.msg, 'input': rec}); continue
+        x, out = pr.value
+        bad = None
+        wantw = expected_wire([[ord('c'), 97 + k] for k in range(n)])
+        if out != wantw:
+            bad = 'the request was written as %r' % (bytes(out),)
+        elif x.variant == 'Ok':
+            resp = x.fields[0]
+            frames = [[(bytes(kk.b), bytes(vv.b)) for kk, vv in (e.fields[0].items for e in f.fields[0].fields[0].v if e.variant == 'Some')] for f in resp.field('frames').v]
+            if frames != want or resp.field('error').variant != 'None':
+                bad = 'the call returns a response with the frames %r, the server produced %r' % (frames, want)
+        elif not I._hit:
+            bad = 'the call fails although the complete reply was delivered'
+        res.cls('shorthand %s%s' % (x.variant, ' after an interrupted read' if I._hit else ''), nontrivial=True)
+        if bad:
+            res.violations.append({'what': bad, 'input': rec})
+        else:
+            res.xval_path('shorthand %s' % x.variant, replay, lambda: rec)
+        if len(res.samples) < 1:
+            res.samples.append({'shorthand': flav, 'n': n, 'result': x.variant})
+        res.take_stats(pr.ctx.stats); pr.ctx.stats.__init__()
 
 def run_wire(P, res, payload):
     """end to end: the server's reply bytes to a list of n commands are decoded by the real connection (parser, ResponseBuilder) and the
@@ -352,6 +430,24 @@ def replay(rec):
             fs = [] if (n >= 3 and k == n // 2) else ([(b'id', b'%d' % k)] + ([(b'extra', b'%d' % k)] if k else []))
             want.append(','.join('%s:%s' % (hexs(a), hexs(b)) for a, b in fs) + '|none')
         return frames != want, 'native frames %s, the server produced %s' % (frames, want)
+    if inp['kind'] == 'shorthand':
+        n = inp['n']
+        body, want = list_reply(n)
+        cut = body.index(b'\n') + 1 + (8 if n > 1 else 0)
+        args = ['shorthand', inp['flav'], str(n), hexs(b'OK MPD 0.23.5\n' + body), '14', str(14 + min(cut, len(body) - 1))]
+        if inp.get('interrupt'):
+            args.append('i%d' % (inp['interrupt'] - 1))
+        out = run_replay(args, small=inp['flav'] == 'sync')
+        if 'panic' in out:
+            return True, 'native run panics'
+        wire = unhex(out['wire'][0]) if 'wire' in out else None
+        if wire != bytes(expected_wire([[ord('c'), 97 + k] for k in range(n)])):
+            return True, 'native: the request was written as %r' % wire
+        kinds = out.get('out', [])
+        if kinds and kinds[0].startswith('response'):
+            wantf = [','.join('%s:%s' % (hexs(a), hexs(b)) for a, b in fs) + '|none' for fs in want]
+            return (out.get('frame', []) != wantf or 'error' in out), 'native frames %s, the server produced %s' % (out.get('frame', []), wantf)
+        return (not inp.get('interrupt')), 'native: the call fails with %s' % kinds
     if inp['kind'] == 'send':
         n = inp['n']
         names = [b'c' + bytes([97 + k]) for k in range(n)]
@@ -393,7 +489,7 @@ def replay(rec):
     return (wire != want or not okp), 'native wire %r pairs %s' % (wire, pairs)
 
 DESCR = {}
-REQUIRED_CLASSES = ['schedule with request', 'wire n=2', 'wire n=3', 'sent n=1', 'sent n=2', 'raw n=1', 'raw n=2', 'raw n>=3', 'tuple all ok', 'vec all ok', 'vec error propagated']
+REQUIRED_CLASSES = ['schedule with request', 'shorthand Ok', 'shorthand Err', 'wire n=2', 'wire n=3', 'sent n=1', 'sent n=2', 'raw n=1', 'raw n=2', 'raw n>=3', 'tuple all ok', 'vec all ok', 'vec error propagated']
 EXPLANATION = ('Bounded symbolic execution of the real MIR of list building/rendering (command bytes symbolic; the rendered stream is compared '
                'with the specified framing by z3) and of the typed list impls for Vec<C> and all eight tuple arities with a harness command type '
                'whose response conversions succeed or fail symbolically (pairing command k <-> frame k asserted on every path); '
